@@ -198,6 +198,8 @@ def _contract(bid, dbl, enc, vn, decl, stats=None):
                                  ('dataclasses.replace(x, xx) on a parsed contract', lambda: dataclasses.replace(back, x=ndbl >= 1, xx=ndbl == 2), bid, ndbl),
                                  ('copy.copy of a parsed contract', lambda: copy.copy(back), bid, dbl),
                                  ('pickle round trip of a parsed contract', lambda: pickle.loads(pickle.dumps(back)), bid, dbl)):
+            if what.startswith('dataclasses.replace') and not dataclasses.is_dataclass(back):
+                continue          # replace() applies to dataclasses only; nothing says a contract must be one
             dcase = dict(case, derived_by=what)
             d = guard('deriving a contract raises', dcase, mk)
             t2 = str(d)
